@@ -193,6 +193,61 @@ def random_driver(seed, kind, length):
     return rec.dump()
 
 
+def documented_workflows():
+    """the call sequences of the repository's documentation (docs/Example1, Example2, Example4) on the library's own
+    synthetic five-storey record (`gen.example_data`, no download), with smaller model orders; returns the recorded traces"""
+    from pyoma2 import algorithms as A
+    from pyoma2.functions import gen
+    from pyoma2.setup import MultiSetup_PreGER, SingleSetup
+
+    from ..tracewrap import Recorder
+
+    data, _ = gen.example_data()
+    rec = Recorder().install()
+    try:
+        # Example 1 - getting started (verbatim)
+        s = SingleSetup(data, fs=200)
+        s.decimate_data(q=10)
+        fdd = A.FDD(name="FDD", nxseg=1024, method_SD="cor")
+        ssidat = A.SSIdat(name="SSIdat", br=30, ordmax=30)
+        s.add_algorithms(fdd, ssidat)
+        s.run_all()
+        s.mpe("SSIdat", sel_freq=[0.89, 2.598, 4.095, 5.261, 6.0], order="find_min")
+        # Example 2 - real dataset: filter, decimate, three algorithms run by name, extraction, save / load
+        s2 = SingleSetup(data[:90000], fs=200)
+        s2.filter_data(Wn=(0.1), order=8, btype="highpass")
+        s2.decimate_data(q=5)
+        fsdd = A.FSDD(name="FSDD", nxseg=1024, method_SD="cor")
+        ssicov = A.SSIcov(name="SSIcov", br=20, ordmax=24)
+        plscf = A.pLSCF(name="polymax", ordmax=12)
+        fsdd.run_params = A.FSDD.RunParamCls(nxseg=2048, method_SD="per", pov=0.5)
+        s2.add_algorithms(ssicov, fsdd, plscf)
+        s2.run_by_name("SSIcov")
+        s2.run_by_name("FSDD")
+        s2.run_by_name("polymax")
+        s2.mpe("SSIcov", sel_freq=[0.89, 2.6, 4.1], order=20)
+        s2.mpe("FSDD", sel_freq=[0.89, 2.6, 4.1], MAClim=0.95)
+        fd, path = tempfile.mkstemp(suffix=".pkl")
+        os.close(fd)
+        try:
+            gen.save_to_file(s2, path)
+            s2 = gen.load_from_file(path)
+        finally:
+            os.remove(path)
+        # Example 4 - multi-setup PreGER: three setups sharing two reference sensors, decimate, one algorithm
+        sets = [np.ascontiguousarray(data[0:60000, [0, 1, 2]]), np.ascontiguousarray(data[60000:120000, [0, 1, 3]]),
+                np.ascontiguousarray(data[120000:180000, [0, 1, 4]])]
+        msp = MultiSetup_PreGER(fs=200, ref_ind=[[0, 1], [0, 1], [0, 1]], datasets=sets)
+        msp.decimate_data(q=2)
+        ssims = A.SSIdat_MS(name="SSIdat", br=10, ordmax=12)
+        msp.add_algorithms(ssims)
+        msp.run_all()
+        msp.mpe("SSIdat", sel_freq=[0.89, 2.6], order=12)
+    finally:
+        rec.uninstall()
+    return rec.dump()
+
+
 def _drive(args):
     return random_driver(*args)
 
@@ -205,6 +260,8 @@ def run(ctx, prop):
     with mp.get_context("fork").Pool(16) as pool:
         drv = pool.map(_drive, jobs)
     traces = [("driver", t) for ts in drv for t in ts]
+    with mp.get_context("fork").Pool(1) as pool:                      # in a child: the recorder patches classes
+        traces += [("documented_workflow", t) for t in pool.apply(documented_workflows)]
     if prop == "C14":
         traces += [("repo_test", t) for t in repo_test_traces(scratch)]
     work = [(i, t, scratch) for i, (_, t) in enumerate(traces)]
